@@ -104,8 +104,11 @@ var syncImport = regexp.MustCompile(`(?m)^(\s*)"sync"\s*$`)
 var atomicImport = regexp.MustCompile(`(?m)^(\s*)"sync/atomic"\s*$`)
 
 // Overlay regenerates the sync-shim overlay from the current library tree.
-func (e *Env) Overlay() (string, error) {
+func (e *Env) Overlay(raceVariant bool) (string, error) {
 	ovDir := filepath.Join(e.WorkDir, "overlay")
+	if raceVariant {
+		ovDir += "-racevar"
+	}
 	if err := os.MkdirAll(ovDir, 0o755); err != nil {
 		return "", err
 	}
@@ -144,12 +147,57 @@ func (e *Env) Overlay() (string, error) {
 	if err != nil {
 		return "", err
 	}
+	if raceVariant {
+		// select the library's race-build source variant without the race detector's
+		// instrumentation: the *_race.go files take the place of the *_norace.go files
+		// (build constraint inverted), both regenerated from the current tree
+		for _, pkg := range []string{"encoder", "decoder"} {
+			dir := filepath.Join(e.Repo, "internal", pkg)
+			ents, err := os.ReadDir(dir)
+			if err != nil {
+				return "", err
+			}
+			for _, en := range ents {
+				name := en.Name()
+				if !strings.HasSuffix(name, "_race.go") {
+					continue
+				}
+				norace := strings.TrimSuffix(name, "_race.go") + "_norace.go"
+				src, ok := repl[filepath.Join(dir, name)]
+				var body []byte
+				if ok {
+					body, err = os.ReadFile(src)
+				} else {
+					body, err = os.ReadFile(filepath.Join(dir, name))
+				}
+				if err != nil {
+					return "", err
+				}
+				if _, err := os.Stat(filepath.Join(dir, norace)); err != nil {
+					return "", fmt.Errorf("race variant %s has no %s counterpart", name, norace)
+				}
+				txt := strings.Replace(string(body), "//go:build race", "//go:build !race", 1)
+				txt = strings.Replace(txt, "// +build race", "// +build !race", 1)
+				if txt == string(body) {
+					return "", fmt.Errorf("%s: build constraint not found", name)
+				}
+				dst := filepath.Join(ovDir, pkg+"__"+norace)
+				if err := os.WriteFile(dst, []byte(txt), 0o644); err != nil {
+					return "", err
+				}
+				repl[filepath.Join(dir, norace)] = dst
+			}
+		}
+	}
 	shim := filepath.Join(e.Verif, "mc", "shim")
 	repl[filepath.Join(e.Repo, "internal", "vsync", "vsync.go")] = filepath.Join(shim, "vsync", "vsync.go")
 	repl[filepath.Join(e.Repo, "internal", "vsync", "vatomic", "vatomic.go")] = filepath.Join(shim, "vsync", "vatomic", "vatomic.go")
 	repl[filepath.Join(e.Repo, "verif_shim_export.go")] = filepath.Join(shim, "verif_shim_export.go")
 	b, _ := json.MarshalIndent(map[string]interface{}{"Replace": repl}, "", " ")
 	ov := filepath.Join(e.WorkDir, "overlay.json")
+	if raceVariant {
+		ov = filepath.Join(e.WorkDir, "overlay-racevar.json")
+	}
 	return ov, os.WriteFile(ov, b, 0o644)
 }
 
@@ -173,14 +221,16 @@ func (e *Env) Build(mode string) (string, error) {
 	case "race":
 		tags += ",vshim"
 		args = append(args, "-race")
+	case "racevar":
+		tags += ",vshim,vracevar"
 	case "checkptr":
 		args = append(args, "-gcflags=all=-d=checkptr")
 	default:
 		return "", fmt.Errorf("unknown build mode %q", mode)
 	}
 	args = append(args, "-tags", tags)
-	if mode == "shim" || mode == "race" {
-		ov, err := e.Overlay()
+	if mode == "shim" || mode == "race" || mode == "racevar" {
+		ov, err := e.Overlay(mode == "racevar")
 		if err != nil {
 			return "", err
 		}
@@ -759,7 +809,7 @@ func Warm(e *Env) int {
 	e.WorkDir = wd
 	rc := 0
 	var wg sync.WaitGroup
-	for _, m := range []string{"plain", "shim", "race", "checkptr"} {
+	for _, m := range []string{"plain", "shim", "racevar", "race", "checkptr"} {
 		wg.Add(1)
 		go func(m string) {
 			defer wg.Done()
